@@ -202,6 +202,8 @@ def rope_isdigit(val):
 def sh_int(val=0, base=10):
     if isinstance(val, (SInt,)):
         return val
+    if isinstance(val, core.SQuot):
+        return val.to_int()
     if hasattr(val, '__sint__'):
         return val.__sint__(base)
     if isinstance(val, Rope):
@@ -494,11 +496,12 @@ def _first_nonempty(r):
 class RopeFile:
     """in-memory binary file over ropes with io.BytesIO semantics (positional overwrite)"""
 
-    def __init__(self, initial=b''):
+    def __init__(self, initial=b'', readable=True):
         self.content = initial
         self.pos = 0
         self.closed = False
         self.log = []
+        self._readable = readable
 
     def _chk(self):
         if self.closed:
@@ -533,6 +536,8 @@ class RopeFile:
 
     def read(self, n=-1):
         self._chk()
+        if not self._readable:
+            raise _io.UnsupportedOperation('read')
         size = self.size()
         if n is None:
             n = -1
@@ -589,7 +594,10 @@ class RopeFile:
         pass
 
     def readable(self):
-        return True
+        return self._readable
+
+    def readinto(self, b):
+        raise Unsupported('readinto on an abstract file')
 
     def writable(self):
         return True
